@@ -1,0 +1,23 @@
+//go:build verif
+
+package limiter
+
+import "sync/atomic"
+
+// Schedule points for the verification harness in /verif (build tag "verif" only): the harness installs a callback that
+// can park the calling goroutine at a named point, which makes specific interleavings reproducible.
+var verifHook atomic.Value // func(name string)
+
+// VerifSetHook installs (or, with nil, removes) the schedule-point callback.
+func VerifSetHook(f func(name string)) {
+	if f == nil {
+		f = func(string) {}
+	}
+	verifHook.Store(f)
+}
+
+func verifPoint(name string) {
+	if f, ok := verifHook.Load().(func(string)); ok && f != nil {
+		f(name)
+	}
+}
